@@ -26,6 +26,7 @@ import atexit
 import gc
 import io
 import itertools
+import logging
 import re
 import shutil
 import sys
@@ -61,6 +62,7 @@ class TestBoom(Exception):
 
 
 _frozen = False
+_warm = False
 _tmpdir = None
 
 
@@ -314,8 +316,9 @@ def run_world(spec, before_run=None):
     if spec.get('child'):
         args += ['--resume-layer', spec['child'], '1']
     args += ['--path', _tmpdir] + list(spec.get('args') or ())
+    root_logger = logging.getLogger()
     saved = (sys.stdout, sys.stderr, sys.stdin, list(sys.path),
-             R.resume_tests)
+             R.resume_tests, list(root_logger.handlers))
     rec = _Recorder(w.trace)
     try:
         sys.stdout = sys.stderr = rec
@@ -332,7 +335,16 @@ def run_world(spec, before_run=None):
         sys.stdout, sys.stderr, sys.stdin = saved[:3]
         sys.path[:] = saved[3]
         R.resume_tests = saved[4]
+        # the Logging feature adds a NullHandler to the root logger on every
+        # run and never removes it: undo, or the heap grows run by run
+        root_logger.handlers[:] = saved[5]
     w.trace.append(('end',))
+    global _warm
+    if not _warm:
+        # modules imported lazily during the first run: freeze them as well
+        _warm = True
+        gc.collect()
+        gc.freeze()
     return w
 
 
